@@ -348,6 +348,46 @@ def all_trees():
     return level
 
 
+_DEEP = {}
+
+
+def deep_trees(n=120):
+    """seeded random trees of depth 3..5 built from the exhaustive ones: siblings of the same kind that differ only in
+    their nesting (And(a,b) next to And(Or(a,b)), When(c) inside And/Or, ...), which no depth-2 tree contains"""
+    import os
+    import random
+    seed = int(os.environ.get('VERIF_SEED', '0') or 0)
+    if seed in _DEEP:
+        return _DEEP[seed]
+    rng = random.Random(7331 + seed)
+    base = [t for t in all_trees() if not isinstance(t, int)]
+    pool = list(base)
+    out = []
+    # systematic part: a compound next to the same-kind compound of one of its re-nestings
+    for kind in ('And', 'Or'):
+        for inner in ('And', 'Or'):
+            for a, b in ((0, 1), (1, 2), (0, 2)):
+                flat = (kind, a, b)
+                nested = (kind, (inner, a, b))
+                for top in ('And', 'Or'):
+                    out.append((top, nested, flat))
+                    out.append((top, flat, (kind, ('When', a), b)))
+    while len(out) < n:
+        kind = rng.choice(['And', 'Or', 'When'])
+        k = 1 if kind == 'When' else rng.choice([1, 2, 2, 3])
+        kids = []
+        while len(kids) < k:
+            c = rng.choice(pool) if rng.random() < 0.8 else rng.choice([0, 1, 2])
+            if c not in kids:
+                kids.append(c)
+        t = (kind,) + tuple(kids)
+        if t not in out and t not in base:
+            out.append(t)
+            pool.append(t)
+    _DEEP[seed] = out
+    return out
+
+
 def subtrees(t):
     return [t] if isinstance(t, int) else [t] + [n for k in t[1:] for n in subtrees(k)]
 
@@ -398,7 +438,7 @@ def tree_job(job):
         sat = all(k[0] for k in kids)
         return sat, (set().union(*[k[1] for k in kids]) if sat else set())
 
-    for t in ([only] if only is not None else all_trees()):
+    for t in ([only] if only is not None else all_trees() + deep_trees()):
         if isinstance(t, int):
             continue
         c = obj(t)
@@ -520,7 +560,8 @@ def run(tier='quick', seed=0):
     res = Result(rule='prim: each primitive x full parameter grid (tolerances incl. 0 and numpy scalars; windows 0, None, '
                  '1..5, 30 > len(history), 2.9) x %d seeded fake solvers (histories of length 0..29: grid/float/plateau/'
                  'descending/+inf prefix/+inf anywhere); distinct = (primitive, kwds, window-vs-length class, expected). '
-                 'trees: every And/Or/When tree of depth <= 3 over 3 leaves (members = 1..3 distinct lower trees) x 8 leaf '
+                 'trees: every And/Or/When tree of depth <= 3 over 3 leaves (members = 1..3 distinct lower trees) plus 120 deeper trees '
+                 '(depth 3..5: same-kind siblings that differ only in nesting, seeded random compositions) x 8 leaf '
                  'truth assignments x 2 leaf sets x 4 info modes. roundtrip: every primitive x grid rebuilt from state/type '
                  'on %d fake solvers; state() of every tree.' % (nh, nrt),
                  bound='histories <= 29 entries, populations <= 6x4, trees depth <= 3 over 3 leaves (%d trees)'
